@@ -271,8 +271,9 @@ def guarded_evolve(ctx, tm, s, ttno, tau, normalize, what, scheme):
     from rv.case import CaseAbort, CaseTimeout, _innermost_repo_frame
     env.reseed_global(ctx.rng)
     psi0 = None
-    if scheme == "prop_and_compress_tdrk4" and tm is not None and getattr(tm, "aux", None) is None:
-        psi0 = dense_of(s, tm.order)
+    if scheme == "prop_and_compress_tdrk4" and tm is not None:
+        # dense vector before the call; with auxiliary DoFs the order is (physical sets, auxiliary sets)
+        psi0 = dense_of(s, tm.aux if tm.aux is not None else tm.order)
     try:
         with np.errstate(all="ignore"):
             return s.evolve(ttno, tau, normalize=normalize)
@@ -282,7 +283,7 @@ def guarded_evolve(ctx, tm, s, ttno, tau, normalize, what, scheme):
         where = _innermost_repo_frame(e)
         msg = f"{type(e).__name__}: {str(e)[:120]}"
         if psi0 is not None:
-            v = psi0
+            v = psi0.reshape(tm.dim, -1)            # H acts on the physical DoFs (first axis)
             scale = max(float(np.linalg.norm(v)), 1e-300)
             for _k in range(1, 5):
                 v = tm.H @ v
